@@ -960,6 +960,84 @@ async fn run_probe_v6(
     ))
 }
 
+/// Thin pass-through wrappers for the external runtime-verification harness.
+#[cfg(all(feature = "verif-hooks", not(wasm_browser)))]
+#[allow(missing_docs, unreachable_pub, dead_code, missing_debug_implementations)]
+pub(crate) mod verif {
+    use super::{reportgen::HttpsProbeReport, *};
+    pub use super::{Probe, RelayLatencies, Report};
+
+    /// Builds the [`ProbeReport`] of the given kind and applies it with the real
+    /// [`Report::update`].  `addr` is ignored for HTTPS probes.
+    pub fn report_update(
+        r: &mut Report,
+        probe: Probe,
+        relay: RelayUrl,
+        latency: Duration,
+        addr: SocketAddr,
+    ) {
+        let probe_report = match probe {
+            Probe::Https => ProbeReport::Https(HttpsProbeReport { relay, latency }),
+            Probe::QadIpv4 => ProbeReport::QadIpv4(QadProbeReport {
+                relay,
+                latency,
+                addr,
+            }),
+            Probe::QadIpv6 => ProbeReport::QadIpv6(QadProbeReport {
+                relay,
+                latency,
+                addr,
+            }),
+        };
+        r.update(&probe_report)
+    }
+
+    pub fn latencies_update_relay(
+        l: &mut RelayLatencies,
+        url: RelayUrl,
+        latency: Duration,
+        probe: Probe,
+    ) {
+        l.update_relay(url, latency, probe)
+    }
+
+    pub fn latencies_merge(l: &mut RelayLatencies, other: &RelayLatencies) {
+        l.merge(other)
+    }
+
+    pub fn latencies_get(l: &RelayLatencies, url: &RelayUrl) -> Option<Duration> {
+        l.get(url)
+    }
+
+    /// The report history of a real net-report [`Client`] (built like the in-crate test
+    /// does: no relays, no QUIC config, default options).
+    pub struct History(Client);
+
+    impl History {
+        pub fn new(tls_config: rustls::ClientConfig) -> Self {
+            Self(Client::new(
+                DnsResolver::new(),
+                RelayMap::empty(),
+                Options::new(tls_config),
+                Default::default(),
+            ))
+        }
+
+        /// The real `Client::add_report_history_and_set_preferred_relay`.
+        pub fn add(&mut self, r: &mut Report) {
+            self.0.add_report_history_and_set_preferred_relay(r)
+        }
+
+        pub fn prev_len(&self) -> usize {
+            self.0.reports.prev.len()
+        }
+
+        pub fn last(&self) -> Option<Report> {
+            self.0.reports.last.clone()
+        }
+    }
+}
+
 #[cfg(test)]
 mod test_utils {
     //! Creates a relay server against which to perform tests
